@@ -9,8 +9,8 @@ package stringy
 
 //@ func NewSessionBasedAuthorizer(ctx context.Context, l loggerProvider, b tq.AuthorRequest, u config.User) (res *SessionBasedAuthorizer)
 //@   ensures fresh(res)
-//@   ensures res != nil && res.loggerProvider == l
-//@   ensures[C11] res.user.Name == u.Name && res.user.Scopes == u.Scopes && res.user.Services == u.Services && res.body.Args == b.Args && res.body.User == b.User
+//@   ensures res != nil ==> res.loggerProvider == l
+//@   ensures[C11] res != nil ==> res.user.Name == u.Name && res.user.Scopes == u.Scopes && res.user.Services == u.Services && res.body.Args == b.Args && res.body.User == b.User
 
 //@ func (a CommandBasedAuthorizer) evaluate() (ok bool)
 //@   requires a.loggerProvider != nil
